@@ -22,7 +22,8 @@ EXPLANATION = (
     " ADDED LATER: R6 (an expectation argument, not a bound): the capacity divisor of the second-generation token arrays does not exceed a lower bound of the fuzzer's mean token length computed from the weight table, the shortest spellings and the separator probability."
     " ROUND 7: R2-SPELLING also: the Identifier and Builtin arms write the generated identifier verbatim and the generator writes a digit only after the first position."
     " ROUND 8: R4-ESCAPES reads the `\\\\x` template from whichever formatting macro writes it (format!, write!) and requires the `:02X` / `:02x` padding."
-    " ROUND 10: R2-SPELLING 'no hand-spelled fragment': the NakedDecimal, BitInteger and SuffixedInteger arms push formatted numbers and type keywords only (no literal `_`, sign or prefix).")
+    " ROUND 10: R2-SPELLING 'no hand-spelled fragment': the NakedDecimal, BitInteger and SuffixedInteger arms push formatted numbers and type keywords only (no literal `_`, sign or prefix)."
+    " ROUND 11: the list of suffix types is found by role (the distribution sampled in the SuffixedInteger arm), written as an explicit list or as all type keywords minus the weight-0 arms.")
 
 FZ = "delta::fuzzer::fill_to_capacity_with_tokens"
 BT = "delta::lexer::BaseToken"
